@@ -61,6 +61,38 @@ theorem reach_proj {cfg : Cfg} {s : State} (hr : Reach (lts cfg) s) : Reach (Pro
     · rw [h]; exact ih
     · exact Reach.step l ih h
 
+/-- The processor labels of a batcher run, in order. -/
+def projProc : List Label → List PLabel
+  | [] => []
+  | .proc l :: ls => l :: projProc ls
+  | _ :: ls => projProc ls
+
+/-- A batcher run without a `Close` call projects to the run of the processor LTS over its
+processor labels (every other step leaves the processor component alone). -/
+theorem run_proj {cfg : Cfg} : ∀ {ls : List Label} {s s' : State}, runFrom cfg s ls = some s' →
+    (∀ a ∈ ls, a ≠ .closeCall) → Processor.runFrom pcfg s.p (projProc ls) = some s'.p := by
+  intro ls
+  induction ls with
+  | nil => intro s s' h _; simp [runFrom] at h; subst h; rfl
+  | cons a ls ih =>
+    intro s s' h hno
+    simp only [runFrom] at h
+    cases hst : step cfg s a with
+    | none => simp [hst] at h
+    | some s1 =>
+      simp only [hst, Option.bind_some] at h
+      have ih' := ih h (fun b hb => hno b (List.mem_cons_of_mem _ hb))
+      cases a
+      case proc l =>
+        have hp := (procStep_p (by simpa [step] using hst)).1
+        simp only [projProc, Processor.runFrom, hp, Option.bind_some]
+        exact ih'
+      case closeCall => exact absurd rfl (hno _ (List.mem_cons_self))
+      all_goals
+        (simp only [projProc]
+         have hp : s1.p = s.p := by bstep hst <;> rfl
+         rw [← hp]; exact ih')
+
 /-! ### control invariants -/
 
 /-- Normal form of a processor step inside the batcher: the processor's step plus what the batcher
